@@ -177,6 +177,24 @@ type Explorer struct {
 	// which those phis denote the value of that edge: provenance terms asked for on a path describe that path, not the
 	// merge of all paths (a refactoring that merges two branches into one transfer changes nothing).
 	TrackPhi bool
+	// IntArith: evaluate small integer additions/subtractions and len() of literal lists concretely, so that a loop
+	// over a literal table (e.g. a slice of check closures) is followed element by element. Results outside ±16 are
+	// unknown, which keeps counters in loops with unknown bounds finite. On by default for the validators of the types
+	// package (functions named Validate*, which are small).
+	IntArith bool
+
+	// the activation and environment of the instruction currently handed to Rule.OnInstr
+	curA *act
+	curE env
+}
+
+// CurrentAV is the abstract value v has on the path being explored, for use inside Rule.OnInstr (a number or boolean
+// chosen by an earlier branch is known here even where the provenance term is a merge).
+func (x *Explorer) CurrentAV(v ssa.Value) AV {
+	if x.curA == nil {
+		return Unknown
+	}
+	return x.curA.eval(x.curE, v)
 }
 
 func NewExplorer(w *World, tm *Terms, r Rule) *Explorer {
@@ -244,6 +262,9 @@ func (x *Explorer) key(v ssa.Value, idx int) int { return x.id(v)*8 + idx }
 
 // Run explores fn as an entry point and returns its outcomes.
 func (x *Explorer) Run(fn *ssa.Function, st uint64) []Outcome {
+	if p := pkgOf(fn); p != nil && p.Path() == typesPath && strings.HasPrefix(fn.Name(), "Validate") {
+		x.IntArith = true
+	}
 	return x.runFn(x.TM.Root(fn), st, nil)
 }
 
@@ -355,7 +376,9 @@ func (a *act) instrs(b *ssa.BasicBlock, from int, e env, st uint64) {
 		if _, isPhi := in.(*ssa.Phi); isPhi {
 			continue
 		}
+		x.curA, x.curE = a, e
 		st = x.Rule.OnInstr(x, a.pfr(e), in, st)
+		x.curA, x.curE = nil, nil
 		switch v := in.(type) {
 		case *ssa.Store:
 			if al, ok := v.Addr.(*ssa.Alloc); ok {
@@ -376,7 +399,8 @@ func (a *act) instrs(b *ssa.BasicBlock, from int, e env, st uint64) {
 					continue
 				}
 				ne := e
-				if x.TrackPhi && br.ret != nil {
+				if x.TrackPhi && br.ret != nil && !x.W.isGenerated(br.ret.Parent()) {
+					// (generated getters keep their joined result: their nil-receiver branch is not a real path)
 					ne = ne.set(x.key(v, 7), Int(int64(br.ret.Block().Index)))
 				}
 				if len(br.vals) == 1 {
@@ -473,11 +497,26 @@ func (a *act) call(c *ssa.Call, e env, st uint64) []callBranch {
 	if mode == CallReplace {
 		return []callBranch{{vals: ovals, st: st}}
 	}
-	if _, ok := cc.Value.(*ssa.Builtin); ok {
+	if bi, ok := cc.Value.(*ssa.Builtin); ok {
+		if x.IntArith && bi.Name() == "len" && len(cc.Args) == 1 {
+			if es, ok := listElems(x.W, x.TM, x.TM.OperandAt(a.pfr(e), c, cc.Args[0]), 0); ok {
+				return []callBranch{{vals: []AV{Int(int64(len(es)))}, st: st}}
+			}
+		}
 		return []callBranch{{st: st}}
 	}
 	callee := x.W.calleeBody(cc)
 	var cfr *Frame
+	if callee == nil && x.IntArith {
+		// a call through an element of a literal table of functions, at a concrete index
+		if fn, mc := a.indexedFunc(e, c); fn != nil {
+			callee = fn
+			cfr = x.TM.Enter(a.pfr(e), c, fn)
+			if mc != nil {
+				cfr.Closure, cfr.ClosureFrame = mc, a.pfr(e)
+			}
+		}
+	}
 	if callee == nil && !cc.IsInvoke() && cc.StaticCallee() == nil {
 		// dynamic call through a function value
 		if fn, mc, at := x.resolveFunc(a.fr, cc.Value); fn != nil && fn.Blocks != nil && x.W.isRepoPkg(pkgOf(fn)) {
@@ -700,6 +739,17 @@ func (a *act) eval(e env, v ssa.Value) AV {
 		}
 		l, r := a.eval(e, t.X), a.eval(e, t.Y)
 		switch t.Op {
+		case token.ADD, token.SUB:
+			if x.IntArith && l.K == avInt && r.K == avInt {
+				n := l.N + r.N
+				if t.Op == token.SUB {
+					n = l.N - r.N
+				}
+				if n >= -16 && n <= 16 {
+					return Int(n)
+				}
+			}
+			return Unknown
 		case token.EQL, token.NEQ:
 			res := Unknown
 			switch {
@@ -793,4 +843,37 @@ func (a *act) pfr(e env) *Frame {
 		}
 	}
 	return a.x.TM.SelFrame(a.fr, sel, rsel)
+}
+
+// indexedFunc: the callee of `table[i]()` where table is a literal slice/array of closures or functions and i is
+// concrete on this path.
+func (a *act) indexedFunc(e env, c *ssa.Call) (*ssa.Function, *ssa.MakeClosure) {
+	ld, ok := c.Call.Value.(*ssa.UnOp)
+	if !ok || ld.Op != token.MUL {
+		return nil, nil
+	}
+	ia, ok := ld.X.(*ssa.IndexAddr)
+	if !ok {
+		return nil, nil
+	}
+	idx := a.eval(e, ia.Index)
+	if idx.K != avInt {
+		return nil, nil
+	}
+	es, ok := listElems(a.x.W, a.x.TM, a.x.TM.Of(a.pfr(e), ia.X), 0)
+	if !ok || idx.N < 0 || int(idx.N) >= len(es) {
+		return nil, nil
+	}
+	switch v := es[idx.N].t.V.(type) {
+	case *ssa.MakeClosure:
+		fn, _ := v.Fn.(*ssa.Function)
+		if fn != nil && fn.Blocks != nil {
+			return fn, v
+		}
+	case *ssa.Function:
+		if v.Blocks != nil {
+			return v, nil
+		}
+	}
+	return nil, nil
 }
